@@ -60,7 +60,11 @@ type filler struct {
 var hostileStrings = []string{"1.10", "007", "1e3", "+1", "1.", ".5", "0x10", "1_0", "-0", "1.0", "1", "2", "1.1", "1000",
 	"true", "false", "null", "TRUE", "NaN", "Inf", "", " ", " lead", "trail ", "two  blanks", "\"quoted\"", "back\\slash", "tab\there",
 	"new\nline", "nul\x00byte", "<a&b>", "line\u2028sep", "h\u00e9llo", "\u4e2d\u6587", "\U0001F600", "{\"k\":1}", "[1]", "0s", "1.10.0",
-	strings.Repeat("long-", 120)}
+	strings.Repeat("long-", 120),
+	// a literal backslash followed by what looks like an escape, lone and doubled backslashes, documents that are already
+	// escaped JSON (a direct-response body, a header value, a log format may be exactly that), the characters encoding/json
+	// escapes for HTML
+	"a\\u003cb", "\\u003e", "x\\u0026y", "q\\u0022q", "\\u005c", "lone\\slash", "two\\\\slashes", "trail\\", "\\n-as-two-characters", "\\<", "\\\\u003c", "{\\\"k\\\":\\\"<v>&\\\"}", "{\"body\":\"\\u003chtml\\u003e ok \\u0026 \\\\\"}", "<html>&amp;</html>", "a<b>c&d"}
 
 func (f *filler) freeString() string {
 	if f.hostile && f.r.Pct(55) {
@@ -176,7 +180,7 @@ func (f *filler) fill(v reflect.Value, depth int, path string) {
 	case reflect.Float32, reflect.Float64:
 		v.SetFloat([]float64{0, 1, 0.5, 2.25}[f.r.Intn(4)])
 	case reflect.String:
-		if f.hostile && (strings.HasSuffix(path, ".Value") || strings.HasSuffix(path, "]") && strings.Contains(path, "{map}")) {
+		if f.hostile && (strings.HasSuffix(path, ".Value") || strings.HasSuffix(path, ".Body") || strings.HasSuffix(path, ".Format") || strings.HasSuffix(path, "]") && strings.Contains(path, "{map}")) {
 			v.SetString(f.freeString())
 		} else if f.r.Pct(20) {
 			v.SetString("")
